@@ -1,3 +1,4 @@
+import PhysisModel.Driver.C16Pbd
 import PhysisModel.Base.Proto
 import PhysisModel.Model.Cmp
 import PhysisModel.Spec.Cmp
@@ -158,12 +159,13 @@ def showBonesS (l : List Spec.Pbd.Bone) : String :=
 def showBonesM (l : List Pbd.Bone) : String :=
   join "+" (l.map fun b => Bytes.toHex b.name ++ "/" ++ join "," (b.deform.map fun w => toString w.toNat))
 
-def pbdCase (its lks fromS toS : String) : Option String := do
+def pbdCase (its lks fromS toS : String)
+    (enc : Spec.Pbd.File → Option Bytes := fun f => some (Spec.Pbd.encode f)) : Option String := do
   let f : Spec.Pbd.File := ⟨← (items ";" its).mapM item?, ← (items ";" lks).mapM link?⟩
   let a ← u16? fromS
   let b ← u16? toS
   if !(decide (Spec.Pbd.WFTree f) && decide (Spec.Pbd.WFLayout f)) then none
-  let file := Spec.Pbd.encode f
+  let file ← enc f
   let model := match Pbd.fromExisting file with
     | .ok h => showOutcome showBonesM (Pbd.getDeformMatrices h a b)
     | o => "file-" ++ showOutcome (fun _ => "") o
@@ -189,6 +191,8 @@ def handle (line : String) : String :=
     | ["tera_rt", positions] => teraRoundtrip positions
     | ["tera_write", positions] => teraWriteGrid positions
     | ["tera_wany", positions] => teraWriteAny positions
+    | ["pbdl", its, lks, a, b, stored, reserved, trailer] =>
+      pbdCase its lks a b (C16Pbd.placedEncoder stored reserved trailer)
     | ["pbd", its, lks, a, b] => pbdCase its lks a b
     | [op, a, b, c, name] => layerCase op a b c name
     | _ => none
